@@ -1,11 +1,19 @@
 //! Token-passing scheduler over real OS threads (DESIGN §3.2.1): exactly one simulated
 //! thread runs at a time; the seeded schedule decides who. Yield points exist at operation
-//! boundaries and at every place where the library calls back into caller-supplied code
-//! (Read / Write / RngCore / Into<Repr> / Iterator / Digest seams).
+//! boundaries, at every place where the library calls back into caller-supplied code
+//! (Read / Write / RngCore / Into<Repr> / Iterator / Digest seams) and — in the
+//! function-entry-instrumented build (Engine B', see mc.rs) — at every entry of a
+//! synchronisation function instantiated in the library crate.
+//!
+//! A thread that holds the token but is asleep in the kernel (blocked on a lock whose owner
+//! is parked) is detected through /proc and *revoked*: the scheduler carries on with the
+//! others; the revoked thread re-joins at its next yield point. If every unfinished thread
+//! is blocked, that is a deadlock.
 
 use std::cell::RefCell;
+use std::sync::atomic::{AtomicBool, AtomicI64, AtomicU32, AtomicU64, Ordering};
 use std::sync::{Arc, Condvar, Mutex};
-use std::time::Duration;
+use std::time::{Duration, Instant};
 
 #[derive(Clone, Copy, PartialEq, Eq, Debug)]
 enum Turn {
@@ -26,6 +34,15 @@ pub struct Sim {
     thr_cv: Vec<Condvar>,
     /// bit mask of seam kinds at which threads yield inside calls
     pub yield_mask: u32,
+    /// set by the scheduler when it gives up on a sleeping token holder
+    pub revoked: Vec<AtomicBool>,
+    pub tids: Vec<AtomicI64>,
+    /// synchronisation points the thread may pass before it yields (set at each grant)
+    pub quantum: Vec<AtomicU32>,
+    pub sync_points: AtomicU64,
+    pub revocations: AtomicU64,
+    /// number of currently revoked threads (fast-path check in the function-entry hook)
+    pub outstanding: std::sync::atomic::AtomicUsize,
 }
 
 pub const Y_OP: u32 = 1; // between the library calls of a compound operation
@@ -35,11 +52,49 @@ pub const Y_RNG: u32 = 8;
 pub const Y_INTO: u32 = 16;
 pub const Y_ITER: u32 = 32;
 pub const Y_HASH: u32 = 64;
-pub const Y_ALL: u32 = 127;
+pub const Y_SYNC: u32 = 128; // entries of synchronisation functions (instrumented build only)
+pub const Y_ALL: u32 = 255;
+
+#[derive(Debug, PartialEq, Eq)]
+pub enum Grant {
+    Returned,
+    /// the thread is asleep in the kernel while holding the token: revoked
+    Blocked,
+    /// the token did not come back and the thread is not asleep: stuck inside a call
+    Stalled(&'static str),
+}
 
 thread_local! {
     static CUR: RefCell<Option<(Arc<Sim>, usize)>> = const { RefCell::new(None) };
     static YIELDS: RefCell<u64> = const { RefCell::new(0) };
+}
+
+extern "C" {
+    fn syscall(num: i64, ...) -> i64;
+}
+fn gettid() -> i64 {
+    unsafe { syscall(186) }
+}
+
+/// is this OS thread asleep in a futex wait (i.e. waiting for a lock or condition variable)?
+fn asleep_on_futex(tid: i64) -> Option<bool> {
+    let (s, _) = thread_state(tid)?;
+    if s != 'S' {
+        return Some(false);
+    }
+    let w = std::fs::read_to_string(format!("/proc/self/task/{}/wchan", tid)).ok()?;
+    Some(w.trim_start().starts_with("futex"))
+}
+
+/// (state, cpu ticks) of an OS thread of this process
+fn thread_state(tid: i64) -> Option<(char, u64)> {
+    let s = std::fs::read_to_string(format!("/proc/self/task/{}/stat", tid)).ok()?;
+    let r = s.rfind(')')?;
+    let rest: Vec<&str> = s[r + 1..].split_whitespace().collect();
+    let state = rest.first()?.chars().next()?;
+    let ut: u64 = rest.get(11)?.parse().ok()?;
+    let st: u64 = rest.get(12)?.parse().ok()?;
+    Some((state, ut + st))
 }
 
 impl Sim {
@@ -49,60 +104,156 @@ impl Sim {
             sched_cv: Condvar::new(),
             thr_cv: (0..n).map(|_| Condvar::new()).collect(),
             yield_mask,
+            revoked: (0..n).map(|_| AtomicBool::new(false)).collect(),
+            tids: (0..n).map(|_| AtomicI64::new(0)).collect(),
+            quantum: (0..n).map(|_| AtomicU32::new(1)).collect(),
+            sync_points: AtomicU64::new(0),
+            revocations: AtomicU64::new(0),
+            outstanding: std::sync::atomic::AtomicUsize::new(0),
         })
     }
 
     /// thread side: block until the scheduler names this thread
     pub fn wait_turn(&self, me: usize) {
         let mut g = self.m.lock().unwrap_or_else(|e| e.into_inner());
+        if self.revoked[me].swap(false, Ordering::SeqCst) {
+            // we were taken for blocked before we even got here (slow thread start): re-join
+            self.outstanding.fetch_sub(1, Ordering::SeqCst);
+            self.sched_cv.notify_one();
+        }
         while g.turn != Turn::Thread(me) {
             g = self.thr_cv[me].wait(g).unwrap_or_else(|e| e.into_inner());
         }
     }
 
-    /// thread side: hand the token back
+    /// thread side: hand the token back (or, if it was revoked meanwhile, just re-join)
     pub fn give_back(&self, me: usize, finished: bool, at: &'static str) {
         let mut g = self.m.lock().unwrap_or_else(|e| e.into_inner());
         if finished {
             g.finished[me] = true;
         }
         g.at[me] = at;
-        g.turn = Turn::Scheduler;
+        if self.revoked[me].swap(false, Ordering::SeqCst) {
+            // the token is no longer ours: do not touch the turn, only tell the scheduler we are back
+            self.outstanding.fetch_sub(1, Ordering::SeqCst);
+            self.sched_cv.notify_one();
+            return;
+        }
+        if g.turn == Turn::Thread(me) {
+            g.turn = Turn::Scheduler;
+        }
         self.sched_cv.notify_one();
     }
 
-    /// scheduler side: let thread `i` run until its next yield point. Err = the token did
-    /// not come back within `timeout` (the thread is stuck inside a library call).
-    pub fn grant(&self, i: usize, timeout: Duration) -> Result<(), &'static str> {
+    /// scheduler side: let thread `i` run until its next yield point
+    pub fn grant(&self, i: usize, quantum: u32, timeout: Duration) -> Grant {
         let mut g = self.m.lock().unwrap_or_else(|e| e.into_inner());
+        self.quantum[i].store(quantum.max(1), Ordering::Relaxed);
         g.turn = Turn::Thread(i);
         self.thr_cv[i].notify_one();
-        let deadline = std::time::Instant::now() + timeout;
+        let start = Instant::now();
+        let mut asleep_samples = 0;
+        let mut waits = 0u32;
         while g.turn != Turn::Scheduler {
-            let now = std::time::Instant::now();
-            if now >= deadline {
-                return Err(g.at[i]);
-            }
-            let (ng, _) = self.sched_cv.wait_timeout(g, deadline - now).unwrap_or_else(|e| e.into_inner());
+            // short waits first (operations usually return within microseconds), then 1 ms sampling
+            let slice = if waits < 20 { Duration::from_micros(200) } else { Duration::from_millis(1) };
+            waits += 1;
+            let (ng, to) = self.sched_cv.wait_timeout(g, slice).unwrap_or_else(|e| e.into_inner());
             g = ng;
+            if g.turn == Turn::Scheduler {
+                break;
+            }
+            if to.timed_out() && waits >= 20 {
+                let tid = self.tids[i].load(Ordering::Relaxed);
+                match if tid > 0 { asleep_on_futex(tid) } else { None } {
+                    Some(true) => asleep_samples += 1,
+                    _ => asleep_samples = 0,
+                }
+                if asleep_samples >= 6 {
+                    // continuously asleep in the kernel for >= 6 ms while holding the token: it waits for
+                    // a lock whose owner is parked. Revoke; it re-joins at its next function entry.
+                    self.revoked[i].store(true, Ordering::SeqCst);
+                    self.outstanding.fetch_add(1, Ordering::SeqCst);
+                    self.revocations.fetch_add(1, Ordering::Relaxed);
+                    g.turn = Turn::Scheduler;
+                    return Grant::Blocked;
+                }
+                if start.elapsed() >= timeout {
+                    return Grant::Stalled(g.at[i]);
+                }
+            }
         }
-        Ok(())
+        Grant::Returned
+    }
+
+    /// scheduler side, before every decision: decide deterministically whether a revoked thread is
+    /// still blocked (asleep in the kernel) or has been woken by an unlock; in the latter case wait
+    /// until it has re-joined at its next function entry. Returns true if the thread is back.
+    pub fn settle_revoked(&self, i: usize) -> bool {
+        let tid = self.tids[i].load(Ordering::Relaxed);
+        let start = Instant::now();
+        loop {
+            if !self.is_revoked(i) {
+                return true;
+            }
+            match asleep_on_futex(tid) {
+                // asleep: never woken, or woken and already asleep again on a lock that is still held
+                Some(true) => return false,
+                Some(false) => {}
+                None => return !self.is_revoked(i),
+            }
+            // runnable: an unlock has woken it; let it run to its next function entry
+            // (yield, do not sleep: the caller may be the token holder, whose own state is sampled)
+            if start.elapsed() > Duration::from_secs(5) {
+                return false;
+            }
+            std::thread::yield_now();
+        }
+    }
+
+    /// token holder side (function-entry hook, only while some thread is revoked): if one of our own
+    /// unlocks has just woken a revoked thread, stand still until it has taken the lock and re-joined
+    /// (or has gone back to sleep), so that lock hand-over never races with the token holder
+    pub fn holder_settle(&self, me: usize) {
+        for i in 0..self.revoked.len() {
+            if i != me && self.is_revoked(i) {
+                self.settle_revoked(i);
+            }
+        }
+    }
+
+    /// scheduler side: wait a little for any revoked thread to re-join or finish
+    pub fn wait_for_rejoin(&self, d: Duration) {
+        let g = self.m.lock().unwrap_or_else(|e| e.into_inner());
+        let _ = self.sched_cv.wait_timeout(g, d);
+    }
+
+    /// diagnostic: kernel view of a simulated thread
+    pub fn describe(&self, i: usize) -> String {
+        let tid = self.tids[i].load(Ordering::Relaxed);
+        let st = thread_state(tid).map(|s| s.0).unwrap_or('?');
+        let wchan = std::fs::read_to_string(format!("/proc/self/task/{}/wchan", tid)).unwrap_or_default();
+        let at = self.m.lock().unwrap_or_else(|e| e.into_inner()).at[i];
+        format!("state {} wchan {} last yield point '{}' revoked {}", st, wchan.trim(), at, self.is_revoked(i))
     }
 
     pub fn is_finished(&self, i: usize) -> bool {
         self.m.lock().unwrap_or_else(|e| e.into_inner()).finished[i]
     }
-    pub fn last_at(&self, i: usize) -> &'static str {
-        self.m.lock().unwrap_or_else(|e| e.into_inner()).at[i]
+    pub fn is_revoked(&self, i: usize) -> bool {
+        self.revoked[i].load(Ordering::SeqCst)
     }
 }
 
 /// register the calling OS thread as simulated thread `me`
 pub fn enter(sim: &Arc<Sim>, me: usize) {
+    sim.tids[me].store(gettid(), Ordering::Relaxed);
     CUR.with(|c| *c.borrow_mut() = Some((sim.clone(), me)));
     YIELDS.with(|y| *y.borrow_mut() = 0);
+    crate::mc::activate(Arc::as_ptr(sim), me);
 }
 pub fn leave() -> u64 {
+    crate::mc::deactivate();
     CUR.with(|c| *c.borrow_mut() = None);
     YIELDS.with(|y| *y.borrow())
 }
@@ -119,4 +270,26 @@ pub fn yield_here(kind: u32, at: &'static str) {
             sim.wait_turn(me);
         }
     }
+}
+
+/// called from the function-entry hook when a revoked thread wakes up: park until named
+pub fn rejoin(sim: &Sim, me: usize) {
+    sim.give_back(me, false, "re-joined after being blocked");
+    sim.wait_turn(me);
+}
+
+/// called from the function-entry hook at the entry of a synchronisation function
+pub fn sync_point(sim: &Sim, me: usize) {
+    sim.sync_points.fetch_add(1, Ordering::Relaxed);
+    if sim.yield_mask & Y_SYNC == 0 {
+        return;
+    }
+    let q = sim.quantum[me].load(Ordering::Relaxed);
+    if q > 1 {
+        sim.quantum[me].store(q - 1, Ordering::Relaxed);
+        return;
+    }
+    YIELDS.with(|y| *y.borrow_mut() += 1);
+    sim.give_back(me, false, "synchronisation function entry");
+    sim.wait_turn(me);
 }
